@@ -904,7 +904,9 @@ func runHist(in []string) []string {
 	var st storage.Store
 	var err error
 	var dir string
-	// store field: mem|file[.c<cap>][.m<maxkb>]  (per-mailbox cap; store-wide size limit, memory store only)
+	// store field: mem|file[.c<cap>][.m<maxkb>][.t1]  (per-mailbox cap; store-wide size limit, memory store only;
+	// t1: the client is given its base URL spelt with a trailing slash — the same server, the same answers)
+	clientSlash := false
 	sf := strings.Split(storeKind, ".")
 	storeKind = sf[0]
 	scfg := config.Storage{Params: map[string]string{}}
@@ -914,6 +916,8 @@ func runHist(in []string) []string {
 			scfg.MailboxMsgCap = vh.AtoI(o[1:])
 		case 'm':
 			scfg.Params["maxkb"] = o[1:]
+		case 't':
+			clientSlash = true
 		}
 	}
 	if storeKind == "file" {
@@ -949,7 +953,11 @@ func runHist(in []string) []string {
 		}
 	}
 	e.raw = &http.Client{Timeout: 20 * time.Second, CheckRedirect: func(*http.Request, []*http.Request) error { return http.ErrUseLastResponse }}
-	e.cli, err = client.New(srv.URL + prefix(""))
+	cliBase := srv.URL + prefix("")
+	if clientSlash {
+		cliBase += "/"
+	}
+	e.cli, err = client.New(cliBase)
 	if err != nil {
 		return []string{"CLIENTERR"}
 	}
